@@ -633,13 +633,9 @@ impl<'p, 's, M: Matcher, W: io::Write> JSONSink<'p, 's, M, W> {
                 true
             },
         )?;
-        // Don't report empty matches appearing at the end of the bytes.
-        if !matches.is_empty()
-            && matches.last().unwrap().is_empty()
-            && matches.last().unwrap().start() >= bytes.len()
-        {
-            matches.pop().unwrap();
-        }
+        // (An empty match at the end of the range is only reported by
+        // `find_iter_at_in_context` when it belongs to the range, i.e., at
+        // the very end of an unterminated last line.)
         Ok(())
     }
 
